@@ -40,6 +40,44 @@ class Cancel:
 
 NO_CANCEL = Cancel()
 
+
+class LineCancel:
+    """Cancellation at an ARBITRARY point: KeyboardInterrupt at the n-th *function entry* executed inside the package
+    under test (sys.settrace 'call' events of frames whose code lives under `root_dir`).  Function entries are where
+    CPython really checks for pending signals / asynchronous exceptions (the eval-breaker check of RESUME); raising at
+    arbitrary *lines* would also hit points no real interrupt can reach - e.g. the first statement of a `finally:`
+    block that restores state - and would flag every try/finally guard as broken (a false alarm that was made once,
+    DESIGN 10.2).  With at=None it only counts, which is how a session learns how many such points a comparison has
+    before it picks one."""
+
+    seam = "line"
+
+    def __init__(self, root_dir, at=None):
+        self.root = root_dir
+        self.at = at
+        self.count = 0
+        self.fired = False
+        self.where = None
+
+    def _global(self, frame, event, arg):
+        if event == "call" and frame.f_code.co_filename.startswith(self.root):
+            self.count += 1
+            if self.at is not None and not self.fired and self.count >= self.at:
+                self.fired = True
+                self.where = f"{frame.f_code.co_filename.rsplit('/', 1)[-1]}:{frame.f_code.co_name}"
+                sys.settrace(None)
+                raise KeyboardInterrupt()
+        return None
+
+    def __enter__(self):
+        sys.settrace(self._global)
+        return self
+
+    def __exit__(self, *a):
+        sys.settrace(None)
+        return False
+
+
 PROFILES = {
     "frozen": 0.0,      # no time passes: bars never redraw after the first frame
     "1ms": 0.001,
